@@ -82,6 +82,10 @@ func TestTrace(t *testing.T) {
 func genCase(w *bufio.Writer, rng *rand.Rand, kind string, k int) {
 	switch kind {
 	case "pfx":
+		if k < len(sweepOffsets) { // the first histories sweep the late-join offset around the snapshot cadence
+			genSweepCase(w, rng, k, sweepOffsets[k])
+			return
+		}
 		budget := []int{30, 60, 120, 250}[rng.Intn(4)]
 		genPfxCase(w, rng, k, budget)
 	case "fib":
